@@ -59,3 +59,26 @@ def evaluate_global(repo: Repo, module: str, name: str):
     if name not in mi.assigns:
         raise AnalysisError(f'anchor {module}:{name} (module-level table) not found')
     return it.global_name(name, mi, None)
+
+
+def history_free(repo: Repo, fis, rule, eff=None):
+    """Rule helper: the given functions write to no module-level state, directly or
+    through callees (a memo table filled by the first caller makes later results
+    depend on call history), and hand out no memoised object."""
+    from sa.effects import Effects
+    if eff is None:
+        eff = Effects(repo)
+        eff.solve()
+    for fi in fis:
+        s = eff.summaries[fi.fq]
+        g = {t: m for t, m in s.mutates.items() if t.startswith('g:')}
+        cached = sorted(t for t in s.ret.cont if t.startswith('g:'))
+        if g:
+            tok, m = sorted(g.items())[0]
+            rule.fail(fi.qualname, m.where, {'writes_module_state': sorted(g), 'statement': m.stmt, 'via': m.via},
+                      key=f'{fi.fq}:module-state')
+        elif cached:
+            rule.fail(fi.qualname, loc(fi), {'returns_shared_object': cached}, key=f'{fi.fq}:shared-result')
+        else:
+            rule.ok(fi.qualname)
+    return eff
